@@ -849,13 +849,26 @@ func runC17(c *Ctx) {
 		}
 		return false
 	}
-	// lookupOf: v is inputs[k].Channel; returns the lookup
+	// lookupOf: v is inputs[k].Channel (possibly through a local copy of the entry: input :=
+	// inputs[k]; ... input.Channel); returns the lookup
 	lookupOf := func(v ssa.Value) *ssa.Lookup {
-		f, isF := v.(*ssa.Field)
-		if !isF || fieldName(f.X.Type(), f.Field) != "Channel" {
-			return nil
+		var entry ssa.Value
+		switch x := v.(type) {
+		case *ssa.Field:
+			if fieldName(x.X.Type(), x.Field) == "Channel" {
+				entry = x.X
+			}
+		case *ssa.UnOp:
+			if fa, isFA := x.X.(*ssa.FieldAddr); isFA && x.Op == token.MUL && fieldName(fa.X.Type(), fa.Field) == "Channel" {
+				if al, isAl := fa.X.(*ssa.Alloc); isAl {
+					stores, escapes := allocStores(al)
+					if !escapes && len(stores) == 1 && stores[0].field == -1 {
+						entry = stores[0].st.Val
+					}
+				}
+			}
 		}
-		lk, isL := f.X.(*ssa.Lookup)
+		lk, isL := entry.(*ssa.Lookup)
 		if !isL || !p.isFieldLoad(lk.X, "inputs") {
 			return nil
 		}
@@ -1014,28 +1027,48 @@ func checkN6(c *Ctx, pr *prioRoles) {
 				if !isCall {
 					continue
 				}
-				if bi, isB := call.Call.Value.(*ssa.Builtin); !isB || bi.Name() != "append" {
-					continue
+				type keepCond struct {
+					cm   *Cmp
+					text string
+				}
+				var keep []keepCond
+				key := ""
+				if df := p.delegatedFilter(st, "uncrowded"); df != nil {
+					// x = pick(x, func(p) bool { return cond }): the predicate's answer is the condition
+					key = df.key
+					for _, cm := range df.conds {
+						text := "?"
+						if cm != nil {
+							text = cm.String()
+						}
+						keep = append(keep, keepCond{cm, text})
+					}
+				} else {
+					if bi, isB := call.Call.Value.(*ssa.Builtin); !isB || bi.Name() != "append" {
+						continue
+					}
+					if el, okv := varargsElem(call.Call.Args[1]); okv {
+						key = p.Sym(el).String()
+					}
+					for _, e := range InstrDomEdges(in) {
+						if !blockInLoop(e.From) {
+							continue
+						}
+						iff := e.From.Instrs[len(e.From.Instrs)-1].(*ssa.If)
+						cm := p.NormCmp(iff.Cond, e.Succ == 0)
+						if cm != nil && strings.Contains(cm.String(), "len(") {
+							continue // the range loop's own test
+						}
+						keep = append(keep, keepCond{cm, p.condSymOnEdge(e)})
+					}
 				}
 				n++
-				el, okv := varargsElem(call.Call.Args[1])
-				key := ""
-				if okv {
-					key = p.Sym(el).String()
-				}
 				var conds []string
 				okCond := false
 				extra := false
-				for _, e := range InstrDomEdges(in) {
-					if !blockInLoop(e.From) {
-						continue
-					}
-					iff := e.From.Instrs[len(e.From.Instrs)-1].(*ssa.If)
-					cm := p.NormCmp(iff.Cond, e.Succ == 0)
-					if cm != nil && strings.Contains(cm.String(), "len(") {
-						continue // the range loop's own test
-					}
-					conds = append(conds, p.condSymOnEdge(e))
+				for _, kc := range keep {
+					cm := kc.cm
+					conds = append(conds, kc.text)
 					isIdx := func(s *Sym, field string) bool {
 						s = deepStrip(s)
 						if s.Op != "index" || s.Args[1].String() != key {
@@ -1188,26 +1221,43 @@ func checkN78(c *Ctx, pr *prioRoles) {
 				if !isCall {
 					continue
 				}
-				if bi, isB := call.Call.Value.(*ssa.Builtin); !isB || bi.Name() != "append" {
-					continue
+				var keep []*Cmp
+				key := ""
+				described := ""
+				if df := p.delegatedFilter(st, "useful"); df != nil {
+					key = df.key
+					keep = df.conds
+					for _, cm := range df.conds {
+						if cm != nil {
+							described += cm.String() + " "
+						} else {
+							described += "? "
+						}
+					}
+				} else {
+					if bi, isB := call.Call.Value.(*ssa.Builtin); !isB || bi.Name() != "append" {
+						continue
+					}
+					if el, okv := varargsElem(call.Call.Args[1]); okv {
+						key = p.Sym(el).String()
+					}
+					for _, e := range InstrDomEdges(in) {
+						if !blockInLoop(e.From) {
+							continue
+						}
+						iff := e.From.Instrs[len(e.From.Instrs)-1].(*ssa.If)
+						cm := p.NormCmp(iff.Cond, e.Succ == 0)
+						if cm != nil && strings.Contains(cm.String(), "len(") {
+							continue
+						}
+						keep = append(keep, cm)
+					}
+					described = describeEdges(p, InstrDomEdges(in))
 				}
 				n++
-				el, okv := varargsElem(call.Call.Args[1])
-				key := ""
-				if okv {
-					key = p.Sym(el).String()
-				}
 				form := ""
 				extra := false
-				for _, e := range InstrDomEdges(in) {
-					if !blockInLoop(e.From) {
-						continue
-					}
-					iff := e.From.Instrs[len(e.From.Instrs)-1].(*ssa.If)
-					cm := p.NormCmp(iff.Cond, e.Succ == 0)
-					if cm != nil && strings.Contains(cm.String(), "len(") {
-						continue
-					}
+				for _, cm := range keep {
 					isIdx := func(s *Sym, field string) bool {
 						s = deepStrip(s)
 						if s.Op != "index" || s.Args[1].String() != key {
@@ -1226,7 +1276,7 @@ func checkN78(c *Ctx, pr *prioRoles) {
 					}
 				}
 				c.R.Check(form != "" && !extra, "N8", fmt.Sprintf("%s#useful.%d", p.FnKey(fn), n), p.InstrPos(in), form,
-					"the second-phase candidates are selected by "+describeEdges(p, InstrDomEdges(in))+", not by 'used up its allotment' / 'actual < hypothetical share': the unspent handlers go to priorities without data, or a lone active priority is left out")
+					"the second-phase candidates are selected by "+described+", not by 'used up its allotment' / 'actual < hypothetical share': the unspent handlers go to priorities without data, or a lone active priority is left out")
 			}
 		}
 	}
